@@ -23,6 +23,7 @@ from ..engine import R, Sub
 PROPERTY = 'C04'
 LEVEL = 'fault_enumeration'
 ASSUMPTIONS = [
+    '"can be rebuilt from its args" is read as: the constructor accepts the args AND the new instance accepts attribute assignment (needed to attach the trace)',
     'pass-through sites: the exception object O raised by user code must leave glom() as an instance of type(O) with args == O.args; if '
     'type(O)(*O.args) succeeds the escaping object must also be a GlomError',
     'converting sites (documented): path access handlers -> PathAccessError, Match predicate -> MatchError, Check validator -> CheckError, '
@@ -120,6 +121,59 @@ class MyBase(BaseException):
     pass
 
 
+class Falsy(Exception):
+    """an exception object that is falsy (a collection-like error with no entries)"""
+    def __len__(self):
+        return 0
+
+
+class FalsyBool(Exception):
+    def __bool__(self):
+        return False
+
+
+class GFalsy(GlomError):
+    def __len__(self):
+        return 0
+
+
+class ReadOnlyArgs(Exception):
+    """rebuildable from its args, but attribute assignment on instances is restricted"""
+    def __init__(self, code, msg):
+        Exception.__init__(self)
+        self._args = (code, msg)
+
+    args = property(lambda self: self._args)
+
+
+class Guarded(Exception):
+    def __init__(self, msg):
+        Exception.__init__(self, msg)
+        object.__setattr__(self, 'sealed', True)
+
+    def __setattr__(self, name, value):
+        if getattr(self, 'sealed', False) and not name.startswith('__'):
+            raise AttributeError('instances of Guarded are read-only')
+        object.__setattr__(self, name, value)
+
+
+class GGuarded(GlomError):
+    def __init__(self, msg):
+        GlomError.__init__(self, msg)
+        object.__setattr__(self, 'sealed', True)
+
+    def __setattr__(self, name, value):
+        if getattr(self, 'sealed', False) and name in ('args', 'code'):
+            raise AttributeError('instances of GGuarded are read-only')
+        object.__setattr__(self, name, value)
+
+
+class NoSubclass(Exception):
+    """refuses to be subclassed (a final exception class)"""
+    def __init_subclass__(cls, **kw):
+        raise RuntimeError('NoSubclass is final')
+
+
 CATALOGUE = {
     'ValueError': lambda: ValueError('v'),
     'KeyError': lambda: KeyError('k'),
@@ -164,11 +218,19 @@ CATALOGUE = {
     'SystemExit': lambda: SystemExit(3),
     'GeneratorExit': lambda: GeneratorExit(),
     'MyBase': lambda: MyBase('b'),
+    'Falsy': lambda: Falsy('f'),
+    'FalsyBool': lambda: FalsyBool('f'),
+    'GFalsy': lambda: GFalsy('gf'),
+    'ReadOnlyArgs': lambda: ReadOnlyArgs(503, 'busy'),
+    'Guarded': lambda: Guarded('g'),
+    'GGuarded': lambda: GGuarded('gg'),
+    'NoSubclass': lambda: NoSubclass('final'),
 }
 QUICK_SHAPES = ['ValueError', 'KeyError', 'KeyError-noargs', 'OSError-2', 'UnicodeDecodeError', 'StopIteration', 'WithAttrs', 'TwoArg',
                 'NonRebuildable', 'KwOnly', 'ArityChange', 'MsgPrefix', 'Slotted', 'GPlain', 'GTwoArg', 'GNonRebuildable', 'GKwOnly',
                 'GArityChange', 'GMsgPrefix', 'GMultiple', 'glom-PathAccessError', 'glom-MatchError', 'glom-TypeMatchError',
-                'glom-UnregisteredTarget', 'glom-CheckError', 'glom-CoalesceError', 'KeyboardInterrupt', 'SystemExit', 'MyBase']
+                'glom-UnregisteredTarget', 'glom-CheckError', 'glom-CoalesceError', 'KeyboardInterrupt', 'SystemExit', 'MyBase',
+                'Falsy', 'FalsyBool', 'GFalsy', 'ReadOnlyArgs', 'Guarded', 'GGuarded', 'NoSubclass']
 
 
 # ---------------------------------------------------------------------------
@@ -338,8 +400,11 @@ def mk_kwargs(name, O):
 
 
 def rebuildable(O):
+    """can the class be rebuilt from the args into an object that can carry the trace?  (an instance that rejects every
+    attribute assignment cannot be annotated by anybody: for such classes only class and args have to survive)"""
     try:
-        type(O)(*O.args)
+        twin = type(O)(*O.args)
+        twin._verif_probe_attribute = 1
         return True
     except Exception:
         return False
